@@ -29,19 +29,85 @@ type fmtSpec struct {
 	verb                            byte
 }
 
-func (e *Exec) sprintf(format string, args []Iface) Str {
+// fmtFormat prepares a format string: a concrete one is returned as it is; in
+// a symbolic one every byte outside a verb is only asked whether it is '%'
+// (two-way fork) and otherwise stays a symbolic literal (placeholder 'X' in the
+// returned string, term in lits); bytes inside a verb are concretised.
+func (e *Exec) fmtFormat(v Value) (string, map[int]*Term) {
+	s, ok := v.(Str)
+	if !ok {
+		e.unsupported(fmt.Sprintf("expected string, got %T", v))
+	}
+	if s.Conc() {
+		return s.s, nil
+	}
+	var sb strings.Builder
+	lits := map[int]*Term{}
+	inVerb := false
+	endsVerb := func(c byte) bool { return c == '%' || (c >= 'a' && c <= 'z') || (c >= 'A' && c <= 'Z') }
+	for i, b := range s.b {
+		if b.IsConst() {
+			c := byte(b.C)
+			sb.WriteByte(c)
+			if inVerb {
+				if endsVerb(c) {
+					inVerb = false
+				}
+			} else if c == '%' {
+				inVerb = true
+			}
+			continue
+		}
+		if inVerb {
+			c := byte(e.concretize(b, "symbolic byte inside a format verb"))
+			sb.WriteByte(c)
+			if endsVerb(c) {
+				inVerb = false
+			}
+			continue
+		}
+		if e.branch(e.tc.Cmp(OpEq, b, e.tc.Const(8, '%'))) {
+			sb.WriteByte('%')
+			inVerb = true
+		} else {
+			sb.WriteByte('X')
+			lits[i] = b
+		}
+	}
+	return sb.String(), lits
+}
+
+func (e *Exec) sprintf(format string, args []Iface) Str { return e.sprintfL(format, nil, args) }
+
+func (e *Exec) sprintfL(format string, lits map[int]*Term, args []Iface) Str {
 	tc := e.tc
 	out := Str{}
 	argi := 0
 	lit := func(s string) { out = strConcat(tc, out, Str{s: s}) }
+	// a stretch of the format itself (may hold symbolic literals)
+	litF := func(from, to int) {
+		if len(lits) == 0 {
+			lit(format[from:to])
+			return
+		}
+		start := from
+		for k := from; k < to; k++ {
+			if t, ok := lits[k]; ok {
+				lit(format[start:k])
+				out = strConcat(tc, out, mkStr([]*Term{t}))
+				start = k + 1
+			}
+		}
+		lit(format[start:to])
+	}
 	i := 0
 	for i < len(format) {
 		j := strings.IndexByte(format[i:], '%')
 		if j < 0 {
-			lit(format[i:])
+			litF(i, len(format))
 			break
 		}
-		lit(format[i : i+j])
+		litF(i, i+j)
 		i += j + 1
 		if i >= len(format) {
 			lit("%!(NOVERB)")
@@ -487,7 +553,8 @@ func (e *Exec) writeTo(w Iface, s Str) Value {
 
 func init() {
 	reg("fmt.Sprintf", func(e *Exec, args []Value, fn *ssa.Function) Value {
-		return e.sprintf(e.goString(args[0]), e.ifaceArgs(args[1]))
+		f, lits := e.fmtFormat(args[0])
+		return e.sprintfL(f, lits, e.ifaceArgs(args[1]))
 	})
 	reg("fmt.Sprint", func(e *Exec, args []Value, fn *ssa.Function) Value {
 		return e.sprint(e.ifaceArgs(args[0]), false)
@@ -496,7 +563,8 @@ func init() {
 		return e.sprint(e.ifaceArgs(args[0]), true)
 	})
 	reg("fmt.Fprintf", func(e *Exec, args []Value, fn *ssa.Function) Value {
-		return e.writeTo(args[0].(Iface), e.sprintf(e.goString(args[1]), e.ifaceArgs(args[2])))
+		f, lits := e.fmtFormat(args[1])
+		return e.writeTo(args[0].(Iface), e.sprintfL(f, lits, e.ifaceArgs(args[2])))
 	})
 	reg("fmt.Fprint", func(e *Exec, args []Value, fn *ssa.Function) Value {
 		return e.writeTo(args[0].(Iface), e.sprint(e.ifaceArgs(args[1]), false))
@@ -510,9 +578,9 @@ func init() {
 		})
 	}
 	reg("fmt.Errorf", func(e *Exec, args []Value, fn *ssa.Function) Value {
-		format := e.goString(args[0])
+		format, lits := e.fmtFormat(args[0])
 		ia := e.ifaceArgs(args[1])
-		msg := e.sprintf(format, ia)
+		msg := e.sprintfL(format, lits, ia)
 		// %w: keep the wrapped error reachable through Unwrap
 		if k := wrapIndex(format); k >= 0 && k < len(ia) && ia[k].t != nil && e.isErrorType(ia[k].t) {
 			wt := e.pkgType("fmt", "wrapError")
